@@ -356,7 +356,8 @@ class EIG(BaseRoutine):
             logger.debug(f"Parameter sweep: round={count}")
 
             for idx, (param, pos) in enumerate(zip(params, positions)):
-                param.v[pos] = val[idx]
+                # use `set` so that time constants also reach `dae.Tf`
+                param.owner.set(src=param.name, idx=idxes[idx], attr='v', value=val[idx])
                 logger.debug(f"Set {param.name} = {param.v[pos]}")
 
             self.system.TDS.init()
